@@ -22,24 +22,25 @@ Definition srv_of (m : N) : srv := mkSrv (N.testbit m 0) (N.testbit m 1) (N.test
 Definition strat_of (c : N) : strategy :=
   match c with 0 => UserOrder | 1 => RoundRobin | _ => QueryStats end.
 
-(* a script = the outcomes of successive exchanges; the last one repeats *)
-Definition script_get (l : list (N * N)) (k : N) : outc * N :=
+(* a script = the outcomes of successive exchanges, each written latency * 16 + outcome code;
+   the last one repeats *)
+Definition script_get (l : list N) (k : N) : outc * N :=
   match l with
   | [] => (OIo, 1)
   | x :: _ =>
       let n := length l in
-      let '(c, t) := nth (Nat.min (N.to_nat k) (n - 1)) l x in (outc_of c, t)
+      let v := nth (Nat.min (N.to_nat k) (n - 1)) l x in (outc_of (v mod 16), v / 16)
   end.
 
-Definition oracle_of (scripts : list (list (N * N) * list (N * N))) : oracle :=
+Definition oracle_of (scripts : list (list N * list N)) : oracle :=
   fun i p k =>
     let '(u, t) := nth (N.to_nat i) scripts ([], []) in
     script_get (match p with Udp => u | Tcp => t end) k.
 
 (* one lookup as observed: permutation used (QueryStatistics only), result code
    (0 = answer), answering server, completion time in ms, exchanges started in start
-   order (server, protocol), backoff sleeps requested in ms *)
-Inductive lk := Lk (perm : list N) (res who fin : N) (xch : list (N * N)) (slp : list N).
+   order (server * 2 + protocol), backoff sleeps requested in ms *)
+Inductive lk := Lk (perm : list N) (res who fin : N) (xch : list N) (slp : list N).
 
 (* one caller event of a de-duplication schedule: 0 arrive c k | 1 complete r | 2 return c | 3 cancel c *)
 Definition dev_of (e : N * (N * N)) : dev :=
@@ -51,7 +52,7 @@ Definition dev_of (e : N * (N * N)) : dev :=
   end.
 
 Inductive case :=
-| CPool (srvs : list N) (nc tmo strat : N) (scripts : list (list (N * N) * list (N * N))) (lks : list lk)
+| CPool (srvs : list N) (nc tmo strat : N) (scripts : list (list N * list N)) (lks : list lk)
 | CDedup (evs : list (N * (N * N))) (runs : N) (got : list (N * N))
 | CSkip.
 
@@ -72,8 +73,8 @@ Fixpoint sort_key (l : list (N * (N * proto))) :=
   match l with [] => [] | x :: l' => ins_key x (sort_key l') end.
 
 (* exchanges in start order; simultaneous starts ordered by server number *)
-Definition canon (l : list (N * (N * proto))) : list (N * N) :=
-  map (fun x => (fst (snd x), proto_code (snd (snd x)))) (sort_key l).
+Definition canon (l : list (N * (N * proto))) : list N :=
+  map (fun x => fst (snd x) * 2 + proto_code (snd (snd x))) (sort_key l).
 
 Definition pair_eqb (a b : N * N) : bool := N.eqb (fst a) (fst b) && N.eqb (snd a) (snd b).
 
@@ -91,7 +92,7 @@ Fixpoint slp_eqb (m o : list N) : bool :=
   end.
 
 (* model output for one lookup: (result code, who, finish, exchanges, sleeps) *)
-Definition lk_out (r : run) : N * N * N * list (N * N) * list N :=
+Definition lk_out (r : run) : N * N * N * list N * list N :=
   match r with
   | Done (ROk i) _ s => (0, i, now s, canon (xs s), slp s)
   | Done (RErr e) _ s => (err_code e, 0, now s, canon (xs s), slp s)
@@ -103,7 +104,7 @@ Definition run_env (r : run) : env := match r with Done _ _ s => en s | OutOfFue
 Definition lk_ok (r : run) (l : lk) : bool :=
   let '(Lk _ res who fin xch sl) := l in
   let '(mres, mwho, mfin, mx, ms) := lk_out r in
-  N.eqb mres res && N.eqb mwho who && within mfin fin && list_eqb pair_eqb mx xch && slp_eqb ms sl.
+  N.eqb mres res && N.eqb mwho who && within mfin fin && list_eqb N.eqb mx xch && slp_eqb ms sl.
 
 Fixpoint run_lks (cfg : config) (o : oracle) (strat : strategy) (next : N) (e : env) (lks : list lk)
   : list run :=
@@ -133,6 +134,18 @@ Fixpoint ins_pair (x : N * N) (l : list (N * N)) : list (N * N) :=
 Fixpoint sort_pair (l : list (N * N)) : list (N * N) :=
   match l with [] => [] | x :: l' => ins_pair x (sort_pair l') end.
 
+Fixpoint dedupN (l : list N) : list N :=
+  match l with
+  | [] => []
+  | x :: l' => if existsb (N.eqb x) l' then dedupN l' else x :: dedupN l'
+  end.
+
+(* (caller, run) for every caller that received a result, sorted by caller *)
+Definition returned_list (evs : list dev) : list (N * N) :=
+  let s := drun evs in
+  sort_pair (flat_map (fun c => match returned s c with Some r => [(c, r)] | None => [] end)
+                      (dedupN (flat_map dev_caller evs))).
+
 Definition check (c : case) : bool :=
   match c with
   | CPool srvs nc tmo strat scripts lks =>
@@ -141,8 +154,8 @@ Definition check (c : case) : bool :=
       perms_ok (length srvs) st lks &&
       all2 lk_ok (run_lks cfg (oracle_of scripts) st 0 env0 lks) lks
   | CDedup evs runs got =>
-      let s := drun (map dev_of evs) in
-      N.eqb (nruns s) runs && list_eqb pair_eqb (sort_pair (returned s)) (sort_pair got)
+      N.eqb (nruns (drun (map dev_of evs))) runs &&
+      list_eqb pair_eqb (returned_list (map dev_of evs)) (sort_pair got)
   | CSkip => true
   end.
 
@@ -155,6 +168,6 @@ Definition show (c : case) :=
       let cfg := mkCfg (map srv_of srvs) nc tmo in
       (map lk_out (run_lks cfg (oracle_of scripts) (strat_of strat) 0 env0 lks), 0, @nil (N * N))
   | CDedup evs _ _ =>
-      let s := drun (map dev_of evs) in ([], nruns s, sort_pair (returned s))
+      ([], nruns (drun (map dev_of evs)), returned_list (map dev_of evs))
   | CSkip => ([], 0, [])
   end.
